@@ -201,6 +201,14 @@ def oracle_pickle(rng):
         if old2.generation != old.generation or list(old2.scalar_variable_ids) != list(old.scalar_variable_ids):
             return ('a Variable dumped in generation %r was loaded after clear_variable_indices() with generation %r'
                     % (old.generation, old2.generation))
+        # components of different generations are different objects of the algebra even when their indices coincide
+        old2.value = np.array([1.0, 2.0])
+        new.value = np.array([10.0, 20.0])
+        ssum, sdiff = old2 + new, old2 - new
+        if [float(t_) for t_ in np.asarray(ssum.value).tolist()] != [11.0, 22.0] or [float(t_) for t_ in np.asarray(sdiff.value).tolist()] != [-9.0, -18.0] \
+                or any(len(se.atoms_to_coeffs) != 2 for se in ssum.flat):
+            return ('x (loaded from an earlier generation) and y (current generation) carry the same indices; x + y evaluates to %s and x - y to %s '
+                    'with x = [1,2], y = [10,20]' % (np.asarray(ssum.value).tolist(), np.asarray(sdiff.value).tolist()))
         try:
             pr = cl.Problem(cl.MIN, old2[0] + old2[1] + new[0] + new[1], [old2 >= 1, new >= 2])
             return ('a model mixing a Variable loaded from an earlier generation with a Variable of the current one (same indices %s) was '
@@ -313,6 +321,15 @@ def oracle_builder_names(rng):
         probs.append(('sage_feasibility', ss.sage_feasibility(f + 10)))
         probs.append(('sage_multiplier_search', ss.sage_multiplier_search(f + 10, level=1)))
     for name, prob in probs:
+        seen_ids = {}
+        for v in prob.all_variables:
+            ids_ = [int(i) for i in np.asarray(v.scalar_variable_ids).ravel().tolist()]
+            if len(ids_) != int(np.prod(v.shape)) if v.shape else len(ids_) != 1:
+                return '%s: after compilation the Variable %s of size %s reports %d indices' % (name, v.name, v.shape, len(ids_))
+            for i_ in set(ids_):
+                if i_ in seen_ids and seen_ids[i_] != v.name:
+                    return '%s: the index %d belongs to the Variables %s and %s' % (name, i_, seen_ids[i_], v.name)
+                seen_ids[i_] = v.name
         names = [v.name for v in prob.all_variables]
         if len(set(names)) != len(names):
             dup = sorted(n for n in set(names) if names.count(n) > 1)
